@@ -347,8 +347,10 @@ func evalC09(c c09Case) *Failure {
 
 type c09Reconfig struct {
 	Rule  bool     `json:"rule"`
-	Steps []string `json:"steps"` // ca=root | ca=foreign | rule=on | rule=off, each followed by Restart (or Stop+Start)
+	Steps []string `json:"steps"` // ca=root | ca=foreign | pass=<new password>, each followed by Restart (or Stop+Start)
 	How   string   `json:"how"`   // restart | stopstart
+	// Password: requirepass configured before the first Start ("" = none)
+	Password string `json:"password,omitempty"`
 }
 
 func evalC09Reconfig(c c09Reconfig) *Failure {
@@ -361,6 +363,10 @@ func evalC09Reconfig(c c09Reconfig) *Failure {
 	srv.ServerCert, srv.ServerKey, srv.CACerts = p.Server.CertPEM, p.Server.KeyPEM, p.Root.CertPEM
 	if c.Rule {
 		srv.AddAuthenticator(auth.NewCertificateAuthenticatorWith(auth.WithCommonName(c09Rule)))
+	}
+	password := c.Password
+	if password != "" {
+		srv.SetRequirePass(password)
 	}
 	_, tlsPort, err := startOnFreePorts(srv, true)
 	if err != nil {
@@ -380,6 +386,9 @@ func evalC09Reconfig(c c09Reconfig) *Failure {
 		tc := tls.Client(raw, c09ClientConfig(p, cred))
 		tc.SetDeadline(time.Now().Add(5 * time.Second))
 		tc.Handshake()
+		if password != "" {
+			roundTrip(tc, resp.Cmd("AUTH", password).Bytes(), 5*time.Second)
+		}
 		v, err := roundTrip(tc, resp.Cmd("GET", key).Bytes(), 5*time.Second)
 		n := 0
 		for _, cl := range rec.Snapshot() {
@@ -398,6 +407,18 @@ func evalC09Reconfig(c c09Reconfig) *Failure {
 		if ok, info := executed(other); ok {
 			return failf("c09|executed-for-rejected-client|stale-ca", "%s: %s: a command was executed for a client whose certificate chains to the CA that is NOT configured (configured: %s) (%s)", c.describe(), when, ca, info)
 		}
+		if c.Rule {
+			// the name rule holds in every configuration the sequence goes through
+			wrong := "wrongname"
+			if ca == "foreign" {
+				wrong = "" // (no wrong-name certificate of the foreign CA in the PKI)
+			}
+			if wrong != "" {
+				if ok, info := executed(wrong); ok {
+					return failf("c09|executed-for-rejected-client|wrongname|reconfigured", "%s: %s: a command was executed for a client of the configured CA whose certificate does not carry the configured name (%s)", c.describe(), when, info)
+				}
+			}
+		}
 		if ok, info := executed(own); !ok {
 			return failf("c09|accepted-client-not-served|stale-ca", "%s: %s: a client whose certificate chains to the configured CA (%s) and carries the right name was not served (%s)", c.describe(), when, ca, info)
 		}
@@ -415,6 +436,11 @@ func evalC09Reconfig(c c09Reconfig) *Failure {
 			srv.CACerts, ca = p.Foreign.CertPEM, "foreign"
 		case "ca=root":
 			srv.CACerts, ca = p.Root.CertPEM, "root"
+		default:
+			if strings.HasPrefix(st, "pass=") {
+				password = strings.TrimPrefix(st, "pass=")
+				srv.SetRequirePass(password)
+			}
 		}
 		if c.How == "stopstart" {
 			srv.Stop()
@@ -436,7 +462,7 @@ func evalC09Reconfig(c c09Reconfig) *Failure {
 }
 
 func (c c09Reconfig) describe() string {
-	return fmt.Sprintf("rule=%v steps=%v how=%s", c.Rule, c.Steps, c.How)
+	return fmt.Sprintf("rule=%v password=%q steps=%v how=%s", c.Rule, c.Password, c.Steps, c.How)
 }
 
 // ---- child-process tier: broken handshakes of every shape against a server process of its own ----
@@ -449,6 +475,9 @@ type c09Junk struct {
 type c09Child struct {
 	Rule bool      `json:"rule"`
 	Junk []c09Junk `json:"junk"`
+	// HostTrustsForeign: the server process runs on a host whose trust store (SSL_CERT_FILE) contains the foreign CA;
+	// only the configured CA may vouch for clients all the same
+	HostTrustsForeign bool `json:"host_trusts_foreign,omitempty"`
 }
 
 // helloThenJunk lets the TLS client send its ClientHello and follows it with junk.
@@ -488,7 +517,14 @@ func evalC09Child(c c09Child) *Failure {
 	if c.Rule {
 		rule = c09Rule
 	}
-	cs, err := startChildServerWith(0, dir, rule)
+	var extraEnv []string
+	if c.HostTrustsForeign {
+		if err := os.WriteFile(filepath.Join(dir, "host-trust.crt"), p.Foreign.CertPEM, 0o600); err != nil {
+			return failf("harness|tmp", "%v", err)
+		}
+		extraEnv = []string{"SSL_CERT_FILE=" + filepath.Join(dir, "host-trust.crt"), "SSL_CERT_DIR=" + dir}
+	}
+	cs, err := startChildServerWith(0, dir, rule, extraEnv...)
 	if err != nil {
 		return failf("harness|child", "%v", err)
 	}
@@ -531,6 +567,26 @@ func evalC09Child(c c09Child) *Failure {
 			return f
 		}
 		return failf("harness|child-not-serving", "%s", f.Detail)
+	}
+	if c.HostTrustsForeign {
+		// a client whose certificate chains to a CA the HOST trusts, but not to the configured CA
+		for _, cred := range []string{"foreign", "selfsigned"} {
+			raw, err := net.DialTimeout("tcp", tlsAddr, 5*time.Second)
+			if err != nil {
+				return failf("c09|tls-listener-down", "cannot connect: %v", err)
+			}
+			tc := tls.Client(raw, c09ClientConfig(p, cred))
+			tc.SetDeadline(time.Now().Add(5 * time.Second))
+			tc.Handshake()
+			v, err := roundTrip(tc, resp.Cmd("PING").Bytes(), 3*time.Second)
+			raw.Close()
+			if err == nil && v.Equal(resp.S("PONG")) {
+				return failf("c09|executed-for-rejected-client|"+cred+"|host-trust-store", "rule=%v: the host's trust store contains the foreign CA: a client with a %s certificate had PING executed (%s)", c.Rule, cred, v)
+			}
+		}
+		if f := valid("after the clients of the host-trusted CA"); f != nil {
+			return f
+		}
 	}
 	for i, j := range c.Junk {
 		when := fmt.Sprintf("rule=%v; after faulty client %d (ClientHello first: %v, then %q)", c.Rule, i, j.Hello, clip(j.Bytes))
@@ -646,12 +702,15 @@ product:
 		k := 0
 		for _, rule := range []bool{false, true} {
 			for _, how := range []string{"restart", "stopstart"} {
-				for _, steps := range [][]string{{"ca=foreign"}, {"ca=foreign", "ca=root"}, {"ca=root", "ca=foreign"}} {
+				for si, steps := range [][]string{{"ca=foreign"}, {"ca=foreign", "ca=root"}, {"ca=root", "ca=foreign"}, {"pass=second"}, {"pass=second", "pass=third"}, {"pass=second", "ca=foreign"}} {
 					k++
 					if k%h.NShards != h.Shard {
 						continue
 					}
 					c := c09Reconfig{Rule: rule, Steps: steps, How: how}
+					if si >= 3 {
+						c.Password = "first"
+					}
 					h.Col.Case(true, []byte("reconfig "+c.describe()), "ca-replaced-at-run-time")
 					h.Report("c09.reconfig", c, evalC09Reconfig(c))
 				}
@@ -670,6 +729,11 @@ product:
 		c := c09Child{Rule: true, Junk: all}
 		h.Col.Case(true, []byte(fmt.Sprint("child-fixed", len(all))), "child-process")
 		h.Report("c09.child", c, evalC09Child(c))
+		for _, rule := range []bool{false, true} {
+			c := c09Child{Rule: rule, HostTrustsForeign: true}
+			h.Col.Case(true, []byte(fmt.Sprint("child-host-trust", rule)), "child-process", "host-trust-store")
+			h.Report("c09.child", c, evalC09Child(c))
+		}
 	}
 	h.Rapid("child", h.N(24, 3000)/h.NShards+1, func(rt *rapid.T) {
 		c := c09Child{Rule: rapid.Bool().Draw(rt, "rule")}
